@@ -12,10 +12,14 @@ def rawKey (k : String × String) : String := k.1 ++ "/" ++ k.2 ++ "/"
 
 def fileEntries (s : State) : List (String × Entry) := sortByKey (s.files.map (fun kv => (rawKey kv.1, kv.2)))
 
+/-- the key records in store order (raw key address ‖ "/"), each as (address, key) -/
+def pubkeyEntries (s : State) : List (String × (String × String)) := sortByKey (s.pubkeys.map (fun kv => (kv.1 ++ "/", (kv.1, kv.2))))
+
 inductive Q where
   | file (address owner : String)
   | allFiles (page : PageReq)
   | pubKey (address : String)
+  | allPubKeys (page : PageReq)
   deriving Repr, Inhabited
 
 inductive Resp where
@@ -23,6 +27,7 @@ inductive Resp where
   | file (f : Entry)
   | files (items : List Entry) (nextKey : Option String) (total : Nat)
   | key (k : String)
+  | keys (items : List (String × String)) (nextKey : Option String) (total : Nat)
   deriving DecidableEq, Repr, Inhabited
 
 def run (s : State) : Q → Resp
@@ -37,5 +42,9 @@ def run (s : State) : Q → Resp
     | .error _ => .err
     | .ok res => .files res.items res.nextKey res.total
   | .pubKey a => match AMap.get s.pubkeys a with | some k => .key k | none => .err
+  | .allPubKeys p =>
+    match paginate (pubkeyEntries s) p with
+    | .error _ => .err
+    | .ok res => .keys res.items res.nextKey res.total
 
 end Canine.Filetree.Query
